@@ -126,7 +126,8 @@ impl FrequencyCounter {
         updated_counters |= updated_counters >> 32;
 
         updated_counters += 1;
-        updated_counters
+        // a row packs two counters per byte: fewer than two counters would leave the rows empty
+        updated_counters.max(2)
     }
 
     fn seeds() -> [u64; ROWS] {
